@@ -14,7 +14,8 @@ Definition with_bech32 (P : prims) : prims :=
      b32_to_base32 := Bech32.to_base32;
      b32_from_base32 := fun d => opt (Bech32.from_base32 d);
      b32_encode := fun h d => opt (Bech32.encode h d);
-     b32_decode := fun s => opt (Bech32.decode s) |}.
+     b32_decode := fun s => opt (Bech32.decode s);
+     blake2b224 := blake2b224 P |}.
 
 (* a well-formed lower-case HRP passes the crate's check_hrp and is returned unchanged by decode *)
 Lemma check_go_valid h : forallb hrp_char_ok h = true -> forall hl,
